@@ -689,6 +689,18 @@ impl<'a, 'ast> Visit<'ast> for R4Find<'a> {
                 }
                 format!("(match {recv} {{ {some}({p}) => {b}, {none_pat} => {none_id} }})")
             }
+            ("or_else", 1) if !is_res => {
+                // std: `x.or_else(f)` == `match x { x @ Some(_) => x, None => f() }`
+                if !matches!(args[0], Expr::Closure(_)) {
+                    return;
+                }
+                let Some((_, b)) = clos(args[0]) else { return };
+                if closure_has_escape(args[0]) {
+                    self.err = Some("R4: closure contains return/?".into());
+                    return;
+                }
+                format!("(match {recv} {{ Some(__v) => Some(__v), None => {b} }})")
+            }
             ("unwrap_or_else", 1) => {
                 if !matches!(args[0], Expr::Closure(_)) {
                     return;
